@@ -192,6 +192,12 @@ type wsBackend struct {
 	// websocket closing handshake: it neither echoes a close frame nor hangs up, and
 	// the session only counts as closed once the peer has ended the TCP connection.
 	Stubborn func(uri string) bool
+	// ReadPause, if it returns a positive duration for a request URI, makes the
+	// backend wait that long before every read (a backend slower than its client).
+	ReadPause func(uri string) time.Duration
+	// Stalled, if it returns true for a request URI, makes the backend stop reading
+	// altogether (the connection stays open).
+	Stalled func(uri string) bool
 }
 
 func startWSBackend(w *World) *wsBackend {
@@ -211,7 +217,18 @@ func startWSBackend(w *World) *wsBackend {
 		if stubborn {
 			c.SetCloseHandler(func(int, string) error { return nil })
 		}
+		pause := time.Duration(0)
+		if wb.ReadPause != nil {
+			pause = wb.ReadPause(s.Path)
+		}
+		if wb.Stalled != nil && wb.Stalled(s.Path) {
+			// never reads; ends when the peer is gone (the world ends first)
+			time.Sleep(1000 * time.Hour)
+		}
 		for {
+			if pause > 0 {
+				time.Sleep(pause)
+			}
 			mt, data, err := c.ReadMessage()
 			if err != nil {
 				if _, isClose := err.(*websocket.CloseError); isClose && stubborn {
